@@ -523,7 +523,10 @@ def _emit_items(items, ind, method, out):
             args = (["self"] if method else []) + (["i"] if p is not None else [])
             if p is not None:
                 if p["csv"]:
-                    src = repr(("i",) + tuple((v,) for v in p["values"]))
+                    # the CSV-like form: a header string (blanks around the names are not part of them), then one tuple per row
+                    import zlib
+                    header = ["i", " i", "i ", " i "][zlib.crc32(("hdr/%s" % it["attr"]).encode()) % 4]
+                    src = repr((header,) + tuple((v,) for v in p["values"]))
                 else:
                     src = repr([{"i": v} for v in p["values"]])
                 if p["naming"] is None:
@@ -623,7 +626,7 @@ def _obs_suite(s):
             "props": _obs_props(s.properties), "links": _obs_links(s.links),
             "tests": [{"name": t.name, "desc": t.description, "rank": t.rank, "disabled": bool(t.disabled),
                        "tags": list(t.tags), "props": _obs_props(t.properties), "links": _obs_links(t.links),
-                       "param": (t.parameters["i"] if t.parameters else None)}
+                       "param": ((t.parameters["i"] if "i" in t.parameters else 4999) if t.parameters else None)}
                       for t in s.get_tests()],
             "suites": [_obs_suite(x) for x in s.get_suites()]}
 
